@@ -1270,6 +1270,8 @@ pub fn build(full_name: &str, level: u8) -> Option<Scenario> {
         _ => return None,
     }
     s.mem_compact = memq;
+    // "-api": every public RawNode entry point is offered to a clone in every state (C20)
+    s.api_probe = name.contains("-api");
     if name.contains("-split") {
         // fsync only when must_sync says so; the state machine has a store of its own: after a
         // crash the applied index (and applied configuration) may be ahead of the durable commit
